@@ -285,10 +285,15 @@ func misuse(s *simrt.Sim) {
 		}
 		p, v := hx.Try(f)
 		s.Logf("%s panicked=%v %v", what, p, v)
-		if p {
-			return
+		if p && strings.HasPrefix(what, "Unlock") {
+			return // the write path panics with the DAGMutex's internal mutex held: nothing more can be observed
 		}
-		// no panic: state must be unchanged, i.e. entity 1 still held as before and 2/3 free
+		if p {
+			s.Probe("dag-state-probed-after-recovered-runlock-panic")
+		}
+		// no panic, or a panic "instead of corrupting state" on the read path (which releases the internal mutex): the
+		// state must be unchanged, i.e. entity 1 still held as before and 2/3 free and fully usable - also by two
+		// consumers at a time
 		h := newHolders()
 		switch bg {
 		case 1:
@@ -297,17 +302,31 @@ func misuse(s *simrt.Sim) {
 			h.acquire(s, "bg", 1, true)
 		}
 		got := map[string]bool{}
-		for _, e := range []int{1, 2, 3} {
+		finished := 0
+		for _, e := range []int{1, 2, 3, 2, 3} {
 			e := e
 			s.Go(fmt.Sprintf("prober%d", e), func() {
 				m.Lock(e)
 				h.acquire(s, "prober", e, true)
 				got[fmt.Sprint(e)] = true
+				simrt.Yield()
 				h.release(e, true)
 				m.Unlock(e)
+				m.RLock(e)
+				h.acquire(s, "prober", e, false)
+				h.release(e, false)
+				m.RUnlock(e)
+				finished++
 			})
 		}
 		s.Quiesce()
+		want := 4
+		if bg == 0 {
+			want = 5
+		}
+		if finished != want {
+			s.Fail("misuse", what+"-corrupts", "after %s (panicked=%v) only %d of %d consumers of the free entities finished", what, p, finished, want)
+		}
 		if !got["2"] || !got["3"] {
 			s.Fail("misuse", what+"-corrupts", "entities unusable after %s: got %v", what, got)
 		}
